@@ -231,6 +231,16 @@ def goal_directed(P, seed, L=3):
         return P
 
 
+def require_coverage(recs):
+    """A run in which (almost) nothing was compiled -- e.g. every build timing out on an overloaded machine --
+    must not pass as "ok": fewer than 20 % of the jobs carried out is a machinery failure."""
+    from .common import MachineryError
+
+    done = sum(1 for r in recs if not r["skip"])
+    if done * 5 < len(recs):
+        raise MachineryError("only %d of %d compilations were carried out: %s" % (done, len(recs), sorted({r["skip"] for r in recs})))
+
+
 def worker(job):
     cid, P, cname, fresh = job
     gd = fresh == "goal-directed"
